@@ -3,5 +3,6 @@ CONSTANT Depth = 4
 CONSTANT Shift = "0"
 CONSTANT Win0 = 1
 CONSTANT Mms = 0
+CONSTANT Side = "client"
 INVARIANT Emit
 CHECK_DEADLOCK FALSE
